@@ -40,6 +40,11 @@ FLAG_NAMES = ["FITERRSMALL", "FITERR", "FIXED2PSF", "FIXEDCIRCULAR",
 
 
 MUTANTS = [
+    ("RA of exactly 0 wrapped to 360", "AegeanTools/source_finder.py",
+     "            if source.ra < 0:\n                source.ra += 360\n"
+     "            source.ra_str",
+     "            if source.ra <= 0:\n                source.ra += 360\n"
+     "            source.ra_str", "C03-R4"),
     ("island row negative as soon as one pixel is negative",
      "AegeanTools/source_finder.py",
      "            if source.peak_flux < 0:\n"
@@ -537,8 +542,13 @@ def r4(ctx, prog):
                 norm(s.value.func) == "pa_limit")
     scale = nodes(lambda s: inbody(s) and isinstance(s, ast.AugAssign) and
                   norm(s.target) in ("source.a", "source.b"))
+    # the RA wrap: an `if` on source.ra whose body shifts source.ra
     wrap = nodes(lambda s: inbody(s) and isinstance(s, ast.If) and
-                 norm(s.test).replace(" ", "") == "source.ra<0")
+                 any(isinstance(x, ast.Attribute) and norm(x) == "source.ra"
+                     for x in ast.walk(s.test)) and
+                 any(isinstance(b, (ast.Assign, ast.AugAssign)) and
+                     norm(b.targets[0] if isinstance(b, ast.Assign)
+                          else b.target) == "source.ra" for b in s.body))
     strs = nodes(lambda s: inbody(s) and isinstance(s, ast.Assign) and
                  norm(s.targets[0]) in ("source.ra_str", "source.dec_str"))
     app = nodes(lambda s: inbody(s) and isinstance(s, ast.Expr) and
@@ -578,11 +588,35 @@ def r4(ctx, prog):
         ctx.check("C03-R4", rc, "RA wrap before " + norm(g.stmt[s], 50),
                   g.dominates(wrap[0], s), "the sexagesimal strings must be "
                   "computed from the wrapped RA", node=g.stmt[s])
-    w = g.stmt[wrap[0]]
-    okw = len(w.body) == 1 and as_update(w.body[0]) == (
-        "source.ra", ast.Add, "360")
-    ctx.check("C03-R4", rc, "RA wrap adds 360", okw,
-              "negative RA must be wrapped by +360", node=w)
+    from .. import concrete as _cw
+    allwraps = [st for st in walk_no_nested(rc.node) if isinstance(st, ast.If)
+                and any(isinstance(x, ast.Attribute) and
+                        norm(x) == "source.ra" for x in ast.walk(st.test))
+                and any(isinstance(b, (ast.Assign, ast.AugAssign)) and
+                        norm(b.targets[0] if isinstance(b, ast.Assign)
+                             else b.target) == "source.ra" for b in st.body)]
+    ctx.floor("C03-R4", len(allwraps), 2, "RA wraps (component and island "
+              "rows)")
+    for w in allwraps:
+      # interpreted: 0 <= ra < 360 afterwards, and values already in range
+      # (0 included) are left alone
+      badw = []
+      if True:
+        for v_ in (-190.5, -10.0, -1e-9, 0.0, 0, 1e-9, 10.0, 359.999):
+            env_ = {"source.ra": v_}
+            try:
+                _cw.run([w], env_)
+            except _cw.Unknown as e:
+                raise AnalysisError("C03-R4: RA wrap: %s" % e)
+            out_ = env_["source.ra"]
+            want_ = v_ + 360 if v_ < 0 else v_
+            if out_ != want_ or not (0 <= out_ < 360):
+                badw.append((v_, out_))
+        ctx.check("C03-R4", rc, "RA wrap `%s` over 8 sample values" %
+                  norm(w.test), not badw,
+                  "a right ascension of %s comes out as %s: the wrap must add "
+                  "360 to negative values only, leaving 0 <= ra < 360" %
+                  (badw[0] if badw else ("", "")), node=w)
     # pa_limit post-condition: the function is interpreted (our evaluator,
     # not python) over angles on both sides of each boundary
     from .. import concrete
